@@ -1047,6 +1047,64 @@ class Unit:
                     raise ExtractError("%s: empty body" % label)
                 s0, e, tail = enclosing_stmt(src, bo + 1, bc, ks[-1])
                 ed.insert(toks[s0].start, text + "\n", "A", "proof hint before the tail expression")
+            elif name == "arm_of":
+                # wrap the value of the match arm containing the K-th occurrence of a token
+                # sequence in a block that starts with the given proof text
+                m = re.match(r"(\d+)\s+`(.*)`\s*$", arg)
+                if not m:
+                    raise ExtractError("%s: bad //@arm_of argument `%s`" % (label, arg))
+                kth, pat = int(m.group(1)), m.group(2)
+                bo, bc = parts["body"]
+                occ = find_token_seq(src, bo + 1, bc, pat)
+                if kth > len(occ):
+                    raise ExtractError("lost anchor: token sequence `%s` #%d not found in %s" % (pat, kth, label))
+                k0 = occ[kth - 1][0]
+                # backwards to the `=>` of the innermost arm containing k0
+                depth = 0
+                j = k0 - 1
+                arrow = None
+                while j > bo:
+                    t = toks[j]
+                    if t.kind == "punct":
+                        if t.text in CLOSE:
+                            depth += 1
+                        elif t.text in OPEN:
+                            if depth == 0 and t.text == "{":
+                                # entering an enclosing block: if it is an arm block `=> {` use it
+                                pj = j - 1
+                                while toks[pj].kind in ("ws", "comment"):
+                                    pj -= 1
+                                if toks[pj].text == ">" and toks[pj - 1].text == "=":
+                                    arrow = pj
+                                    break
+                            elif depth > 0:
+                                depth -= 1
+                        elif t.text == ">" and toks[j - 1].text == "=" and depth == 0:
+                            arrow = j
+                            break
+                    j -= 1
+                if arrow is None:
+                    raise ExtractError("lost anchor: no match arm around `%s` in %s" % (pat, label))
+                e0 = _next_sig(toks, arrow + 1, bc)
+                if toks[e0].text == "{":
+                    ed.insert(toks[e0].end, "\n" + text + "\n", "A", "proof hint at start of match arm")
+                else:
+                    depth = 0
+                    x = e0
+                    while x < bc:
+                        t = toks[x]
+                        if t.kind == "punct":
+                            if t.text in OPEN:
+                                x = match_close(toks, x) + 1
+                                continue
+                            if t.text in CLOSE or t.text == ",":
+                                break
+                        x += 1
+                    last = x - 1
+                    while toks[last].kind in ("ws", "comment"):
+                        last -= 1
+                    ed.insert(toks[e0].start, "{\n" + text + "\n", "A", "match arm value wrapped in a block carrying a proof hint")
+                    ed.insert(toks[last].end, " }", "A", "match arm value wrapped in a block carrying a proof hint")
             elif name == "loopbody":
                 bo, bc = parts["body"]
                 ls = loops_in(src, bo + 1, bc)
@@ -1115,12 +1173,18 @@ class Unit:
                 if not m:
                     raise ExtractError("%s: bad //@closure argument" % label)
                 rule_R7(ed, src, parts, int(m.group(1)), m.group(2), text)
-            elif name == "subst":
+            elif name in ("subst", "nospinoff"):
                 pass
             elif name == "pubfields":
                 rule_R8(ed, src, a, b)
             else:
                 raise ExtractError("%s: unknown sub-directive //@%s" % (label, name))
+        # every function under contract is verified in its own solver instance: the verdict
+        # for one function then cannot depend on which other functions were checked before it
+        if is_fn and parts and parts["body"] and any(n == "spec" for (n, _a, _t) in blk.subs) \
+                and not any(n == "attr" and "spinoff_prover" in a for (n, a, _t) in blk.subs) \
+                and not any(n == "nospinoff" for (n, _a, _t) in blk.subs):
+            ed.insert(head_ins, "#[verifier::spinoff_prover]\n", "A", "attribute")
         # substitutions (R6 path re-rooting) -- token-sequence replacement
         substs = list(default_subst)
         for (name, arg, tlines) in blk.subs:
